@@ -89,6 +89,9 @@ pub struct Engine {
     /// swept (unbacked) fees were paid out: the contract may hold less than it owes (admin-induced,
     /// DESIGN 1.1) and entitled payouts can fail for lack of funds
     pub solvency_void: bool,
+    /// a block time with a non-zero sub-second part occurred: in the very second of a deadline an
+    /// implementation that keeps nanosecond deadlines may still (correctly) refuse, so the outcome is open
+    pub subsecond_seen: bool,
     pub wanted: Option<&'static str>,
     pub first_foreign: Option<Violation>,
 }
@@ -188,6 +191,7 @@ impl Engine {
             identity_changed: false,
             ctx_tags: vec![],
             solvency_void: false,
+            subsecond_seen: false,
             wanted,
             first_foreign: None,
         };
